@@ -96,6 +96,9 @@ def signed(rng, v):
     return rng.choice(["", "", "+"]) + literal(rng, v)
 
 
+OBJ_LABEL = [""]      # label chosen by the last render_lp call ("" = unnamed objective)
+
+
 def render_lp(rng, lp, cn, rn, ints=()):
     """(text, expected) — expected = (sense, {col: (obj, lo, up, isint)}, [(name-or-None, sense, rhs, {col: coef})])"""
     kw = lambda *alts: rng.choice(alts)
@@ -106,7 +109,11 @@ def render_lp(rng, lp, cn, rn, ints=()):
         lines.append("\\ leading comment line")
     lines.append(kw("Minimize", "MINIMIZE", "min", "Min", "MINIMUM", "minimum") if lp.sense == "min" else kw("Maximize", "MAXIMIZE", "max", "Max", "MAXIMUM", "maximum"))
     objent = [(j, c[0]) for j, c in enumerate(lp.cols) if c[0] != 0]
-    lines.append(" " + rng.choice(["obj: ", "cost: ", "", ""]) + (expr(rng, objent, cn) if objent else ""))
+    label = rng.choice(["obj: ", "cost: ", "", ""])
+    if label.rstrip(": ") in rn:
+        label = "z_obj: "                 # a label equal to a row name would be a genuinely repeated name
+    OBJ_LABEL[0] = label
+    lines.append(" " + label + (expr(rng, objent, cn) if objent else ""))
     lines.append(kw("Subject To", "SUBJECT TO", "subject to", "st", "ST", "St"))
     rows = []
     for i, r in enumerate(lp.rows):
@@ -215,9 +222,16 @@ def compare_expected(expected, back, cn_of):
     return diffs
 
 
+NOTE = {}
+
+
 def run_c10(ev, rep, rng, exe, quick, pinf, ninf):
     from . import p_files
     jobs = []
+    # fixed case (known finding KF-C10-default-objname-clash is reproduced on every run)
+    fixed = "Minimize\n x\nSubject To\n obj: x >= 1\nEnd\n"
+    NOTE[fixed] = "unnamed-objective-and-row-obj"
+    jobs.append((fixed, ("min", {"x": (F(1), F(0), INF, False)}, [("obj", "G", F(1), [(0, F(1))])]), ["x"]))
     for k in range(250 if quick else 5000):
         r = rng.fork("f%d" % k)
         lp, cn, rn = p_files.named_problem(r)
@@ -229,6 +243,8 @@ def run_c10(ev, rep, rng, exe, quick, pinf, ninf):
             lp.cols[0][0] = F(1)           # an objective without any term is not a valid LP-format objective
         ints = sorted(set(r.below(len(cn)) for _ in range(r.rint(0, 2)))) if r.chance(0.3) else []
         text, expected = render_lp(r, lp, cn, rn, ints)
+        if OBJ_LABEL[0] == "" and any(row[0] == "obj" for row in expected[2]):
+            NOTE[text] = "unnamed-objective-and-row-obj"
         jobs.append((text, expected, cn))
     batches = [jobs[i:i + 12] for i in range(0, len(jobs), 12)]
 
@@ -253,7 +269,7 @@ def run_c10(ev, rep, rng, exe, quick, pinf, ninf):
             if proto.get(rb, "read") != ["ok"]:
                 msgs = [bytes.fromhex(v[0].replace("-", "")).decode("latin-1") for k, v in rb if k == "logmsg"]
                 rep.violation("the LP reader rejects a syntactically valid generated file: %s" % " ".join(msgs)[:200], {"file": text, "messages": msgs[:12]},
-                              signature={"symptom": "file-rejected"})
+                              signature={"symptom": "file-rejected", "cause": NOTE.get(text, "?")})
                 if getattr(tr, "returncode", 0) == 3:
                     break
                 continue
